@@ -6,7 +6,9 @@ CHECK = {
     "rule": "part 1: a case is (corpus frame, fault family chunk: all single-bit flips | all second bits for one first bit | all burst patterns at one bit offset | all truncations+extensions); part 2: a case is (transport, version, type, option bits) x meta x block size x payload length x checksums x header cuts; non-trivial = at least one faulted/generated frame was decided against the reference (all but empty two-bit tails)",
     "assumptions": ["a burst is a run of consecutive bits in line transmission order (least significant bit of each octet first), applied to the raw frame before SLIP encoding",
                     "corrupted frames that the reference decoder itself finds valid (undetectable by the protocol) are counted, reported as a cap and skipped; none is expected for the enumerated fault classes",
-                    "where doc/regp.txt does not decide (payload-CRC bit on a frame without payload; transport-mandated option bits violated) the verdict set contains both readings",
+                    "where doc/regp.txt does not decide (payload-CRC bit on a frame without payload; transport-mandated option bits violated; a response whose payload is not the one section 3.1 prescribes for its code) the verdict set contains both readings",
+                    "the document does not order the receiver's tests: a frame that is wrong in several ways may be classified by any fault class that applies to it (the reference verdict is the union of all applicable classes)",
+                    "the classification is observed in RPMaybeFrame.error.id; regp_recv may additionally return a negative value for a classified frame",
                     "memory of the matching word size is attached, so that non-execution is due to the verdict alone"],
     "harnesses": [{
         "name": "c07_corrupt", "src": "harness/c07_corrupt.c", "shape": "espace", "opt": "-O2",
